@@ -68,6 +68,8 @@ def fold_obligations(ctx, rep, prog, g):
                     continue
                 rep.path((rule, path_sig(it)))
                 lst = it.strip(r)
+                if isinstance(lst, Adt) and lst.name == "std::option::Option":
+                    lst = ListV(list(lst.fields))          # `Option<BoundSet>`: no interval or one
                 if not isinstance(lst, ListV):
                     rep.inconc("%s: fold closure returned %r" % (rule, lst))
                     continue
@@ -93,6 +95,77 @@ def fold_obligations(ctx, rep, prog, g):
                 if total % 37 == 1:
                     rep.sample({"rule": rule, "class": cls, "extracted": bin(den), "reference": bin(exp)})
     rep.analysed_item("%s interpreted on %d (comparator list, world) cases" % (site, total))
+    if any(x.get("what", "").startswith(rule) for x in rep.inconclusive):
+        fold_witness(ctx, rep, prog, FN, site)
+
+
+def fold_witness(ctx, rep, prog, FN, site):
+    """the fold looks inside the comparators (the interval tokens do not apply): search for a concrete counterexample on
+    pairs of comparators with bounds from a small universe of structured versions (release / prerelease). The alternative
+    must hold exactly the interval max(lowers) .. min(uppers), or nothing when that is empty. A mismatch is genuine; none
+    found leaves the rule inconclusive."""
+    from .. import minver, intervals
+    from .common import _cut, _cut_cmp
+    rule = "T-FOLD-WITNESS"
+    rep.rule(rule, 0, "witness search for the comparator fold on concrete intervals")
+    env = intervals.Env(prog)
+    alts = minver.alternatives(minver.bound_universe(True))
+    names = prog.field_names("range::BoundSet")
+    PN = {v: k for k, v in (("I", prog.variant_index("range::Predicate", "Including")),
+                             ("E", prog.variant_index("range::Predicate", "Excluding")),
+                             ("U", prog.variant_index("range::Predicate", "Unbounded")))}
+
+    def setup(pol):
+        pol.witness = True
+        pol.allow_offset_cmp = True
+
+    def dec(it, bs):
+        f = dict(zip(names, it.strip(bs).fields))
+        out = []
+        for side in ("lower", "upper"):
+            pred = it.strip(it.strip(f[side]).fields[0])
+            k = PN[pred.variant]
+            out.append((k, minver.concretise(prog, it, pred.fields[0]) if k != "U" else None))
+        return tuple(out)
+    pairs = [(a, b) for a in alts for b in alts]
+    pairs = pairs[::(2 if ctx.thorough else 7)]
+    n = bad = 0
+    for a, b in pairs:
+        A = minver.build_range(prog, env, [a]).fields[0].items[0]
+        B = minver.build_range(prog, env, [b]).fields[0].items[0]
+        try:
+            r, it = gram.run_with_leaf(prog, FN, ListV([some(A), some(B)]), setup=setup)
+            lst = it.strip(r)
+            if isinstance(lst, Adt) and lst.name == "std::option::Option":
+                lst = ListV(list(lst.fields))
+            got = [dec(it, x) for x in lst.items]
+        except (Inconclusive, Panic):
+            continue
+        n += 1
+        (alk, alv), (auk, auv) = a
+        (blk, blv), (buk, buv) = b
+        la, ua, lb, ub = _cut(alk, "L", alv), _cut(auk, "U", auv), _cut(blk, "L", blv), _cut(buk, "U", buv)
+        lo = (alk, alv) if _cut_cmp(la, lb, "L") >= 0 else (blk, blv)
+        up = (auk, auv) if _cut_cmp(ua, ub, "U") <= 0 else (buk, buv)
+        lc, uc = _cut(lo[0], "L", lo[1]), _cut(up[0], "U", up[1])
+        nonempty = True
+        if lc is not None and uc is not None:
+            c = minver.vcmp(lc[0], uc[0])
+            nonempty = c < 0 or (c == 0 and lc[1] < uc[1])
+        exp = [(lo, up)] if nonempty else []
+        same = len(got) == len(exp) and all(_cut(g[0][0], "L", g[0][1]) == _cut(e[0][0], "L", e[0][1]) and
+                                            _cut(g[1][0], "U", g[1][1]) == _cut(e[1][0], "U", e[1][1]) for g, e in zip(got, exp))
+        if same:
+            rep.ok(rule)
+        else:
+            bad += 1
+            if bad <= 3:
+                rep.fail(rule, "%s|%s|%s" % (site, rule, "alternative lost" if len(got) < len(exp) else ("alternative kept" if len(got) > len(exp) else "wrong bounds")),
+                         "`%s %s` holds %s, the intersection of the two comparators is %s" % (
+                             minver.alt_str(a), minver.alt_str(b), [minver.alt_str(g) for g in got] or "nothing",
+                             [minver.alt_str(e) for e in exp] or "empty"),
+                         example="%s %s" % (minver.alt_str(a), minver.alt_str(b)))
+    rep.analysed_item("witness search for the fold: %d pairs of concrete comparators, %d mismatches" % (n, bad))
 
 
 def or_obligations(ctx, rep, prog, g):
@@ -107,6 +180,14 @@ def or_obligations(ctx, rep, prog, g):
     else:
         gate_sets = [frozenset(), frozenset([0]), frozenset([1])]
         shapes = [()] + [l for n in (1, 2, 3) for l in itertools.product(range(0, 3), repeat=n) if sum(l) <= 3]
+        # what one alternative looks like when range() hands it over: a Vec<BoundSet> (0..n intervals) or an Option<BoundSet>
+        elem_opt = False
+        if prog.has_body("range::range"):
+            rt = prog.types[prog.body("range::range")["locals"][0]]
+            if rt.get("k") == "adt" and rt.get("args"):
+                elem_opt = prog.ty_str(rt["args"][0]).startswith("std::option::Option")
+        if elem_opt:
+            shapes = [l for l in shapes if all(x <= 1 for x in l)]
         ncase = 0
         for lens in shapes:
             total = sum(lens)
@@ -130,7 +211,7 @@ def or_obligations(ctx, rep, prog, g):
                                 one.append(t)
                                 toks.append(t)
                                 c += 1
-                            lists.append(ListV(one))
+                            lists.append((some(one[0]) if one else NONE) if elem_opt else ListV(one))
                         ncase += 1
                         try:
                             r, it = gram.run_with_leaf(prog, FN, ListV(lists), ctx=cx, overrides=setalg.overrides(world, cx))
